@@ -227,7 +227,7 @@ fn confusable(ev: Ev) -> Vec<Vec<Val>> {
         ],
         Ev::I64 => vec![vec![Val::I(0), Val::I(1), Val::I(-1)], vec![Val::I(i64::MAX), Val::I(i64::MIN), Val::I(i64::MAX - 1)], vec![Val::I(4294967296), Val::I(0), Val::I(8589934592)]],
         Ev::Dec => vec![vec![d(false, 1, 0), d(false, 10, 1), d(false, 100, 2), d(false, 1000000, 6)], vec![d(false, 0, 0), d(true, 0, 0), d(false, 0, 28), d(true, 0, 5)], vec![d(false, 25, 1), d(false, 250, 2)]],
-        Ev::Cpx => vec![vec![Val::C(0.0, 0.0), Val::C(-0.0, 0.0), Val::C(0.0, -0.0), Val::C(-0.0, -0.0)], vec![Val::C(1.0, 0.0), Val::C(1.0, -0.0)], vec![Val::C(f64::NAN, 1.0), Val::C(f64::from_bits(0x7ff8_0000_0000_0001), 1.0)]],
+        Ev::Cpx => vec![vec![Val::C(1.0, 2.0), Val::C(2.0, 1.0), Val::C(-1.0, -2.0)], vec![Val::C(3.0, 3.0), Val::C(5.0, 5.0), Val::C(0.0, 0.0), Val::C(2.5, 2.5)], vec![Val::C(0.0, 0.0), Val::C(-0.0, 0.0), Val::C(0.0, -0.0), Val::C(-0.0, -0.0)], vec![Val::C(1.0, 0.0), Val::C(1.0, -0.0)], vec![Val::C(f64::NAN, 1.0), Val::C(f64::from_bits(0x7ff8_0000_0000_0001), 1.0)]],
         Ev::Num => vec![
             vec![Val::NI(5), Val::NF(5.0)],
             vec![Val::NI(0), Val::NF(0.0), Val::NF(-0.0)],
@@ -541,7 +541,8 @@ impl Monitor for C16 {
                     ctx.stats.inc("fresh_process_spawn_failed");
                     continue;
                 }
-                let out = std::process::Command::new(exe).arg("fresh-conc").arg(&path).arg("8").arg(if hammer { "rotate" } else { "together" }).output();
+                let n_threads = "8";
+                let out = std::process::Command::new(exe).arg("fresh-conc").arg(&path).arg(n_threads).arg(if hammer { "rotate" } else { "together" }).output();
                 let _ = std::fs::remove_file(&path);
                 let parsed = match out {
                     Ok(o) if o.status.success() => crate::json::J::parse(String::from_utf8_lossy(&o.stdout).trim()).ok(),
